@@ -31,6 +31,12 @@
 //	                     (same masks); always: freshly
 //	                     generated (wrong) access keys, and for v2 right-enc/wrong-sig and
 //	                     wrong-enc/right-sig.
+//	then damaged sources = v1-to-v2 only: source stores in which the encrypted file of one key
+//	                     (two keys) cannot be read by the export code - re-encrypted under another
+//	                     master key, truncated, empty, one byte altered, private key file with mode
+//	                     0644 - each exported key in turn, and each position (pair of positions) of
+//	                     the migration's processing order in turn; x targets. Space and oracle
+//	                     ("the migration reports failure or the target is complete"): damaged.go.
 //
 // Oracle: see judge.go.
 package main
@@ -625,9 +631,11 @@ func main() {
 	opt.masks = []byte{0x01}
 	opt.sparse = 16
 	depth, flipDepth := 3, 1
+	damageDepth := 2
 	cliDepth, cliTargetsDepth, cliTamperDepth = 1, 0, 0
 	if r.Thorough() {
 		depth, flipDepth = 4, 3
+		damageDepth = 3
 		cliDepth, cliTargetsDepth, cliTamperDepth = 2, 1, 1
 		opt.masks = []byte{0x01, 0x80}
 	}
@@ -645,6 +653,14 @@ func main() {
 		r.LoadReplay(&fr)
 		if fr.Part == "acra-keys-files" || fr.Part == "acra-keys-import-files" {
 			filesPart(r)
+			r.Finish()
+		}
+		var dt DamageTuple
+		r.LoadReplay(&dt)
+		if dt.Part == "migrate-damaged" {
+			opt.trace = true
+			fmt.Printf("replay: %s\n", dt)
+			runDamagedSource(r, out, srcState{Hist: dt.History}, false, nil, &dt)
 			r.Finish()
 		}
 		var t Tuple
@@ -707,16 +723,21 @@ func main() {
 		perPath[path] = map[string]int{"source_states": done}
 		fmt.Fprintf(os.Stderr, "path %s: %d source states done, t=%v\n", path, done, time.Since(t0).Round(time.Millisecond))
 	}
+	if *pathsFlag == "" || strings.Contains(","+*pathsFlag+",", ","+PathMigrate+",") {
+		damagedPart(r, out, states["v1"], damageDepth)
+		fmt.Fprintf(os.Stderr, "v1-to-v2 damaged sources done, t=%v\n", time.Since(t0).Round(time.Millisecond))
+	}
 	if *pathsFlag == "" {
 		filesPart(r)
 	}
 	r.Set("bounds", map[string]interface{}{"history_depth": depth, "full_byte_flip_depth": flipDepth, "flip_masks": fmt.Sprintf("%x", opt.masks), "sparse_flip_positions": opt.sparse, "slots": len(universe), "clients": 3, "cli_history_depth": cliDepth})
 	r.Set("source_states", srcStats)
 	r.Set("per_path", perPath)
-	r.Rule("states = distinct (source canonical state, selection, mode, format path, target class) tuples, each executed once on the real code (source rebuilt by replaying the shortest history of its canonical state; canonical state = per slot generated count, surviving ordinals newest-first, current marker, read below the API); transitions = exports + import attempts (good and tampered) + verification reads; distinct_nontrivial = distinct (path, mode, selection class, target class, outcome) tuples plus distinct (path, mode, target, tamper outcome) tuples")
+	r.Rule("states = distinct (source canonical state, selection, mode, format path, target class) tuples, each executed once on the real code (source rebuilt by replaying the shortest history of its canonical state; canonical state = per slot generated count, surviving ordinals newest-first, current marker, read below the API); transitions = exports + import attempts (good and tampered) + verification reads; distinct_nontrivial = distinct (path, mode, selection class, target class, outcome) tuples plus distinct (path, mode, target, tamper outcome) tuples; v1-to-v2 damaged sources: states = (source state without history files of depth <= 2 (thorough 3) or the full 11-key store, target class, damage kind, damaged exported key [part A: damaged before the migration, the processing order left to the Go map iteration and recorded] or damaged position(s) of the processing order [part B: every single position, for the full store (thorough: every source) every pair; the file of the key asked for at that export call is damaged on disk right before the call reaches the real key store]) each executed once, transitions = the migration + its export calls + verification reads, distinct = (part, damage, target, damaged key last / not last / only key, outcome); oracle: MigrateV1toV2 returns an error, or the target holds every current key of the source with identical values")
 	r.Assume("Themis is replaced by the pure-Go stand-in /verif/shim/gothemis (Secure Cell = AES-GCM: any altered byte of a sealed blob fails authentication, as with Themis)",
 		"v1 key stores use one key folder for private and public keys (kslab stores); the separate public folder variant of filesystem.KeyBackuper is not explored",
 		"source and target are driven sequentially; storage calls do not fail (C08)",
+		"v1-to-v2 damaged sources: only encrypted (authenticated) key files are damaged - public key files are stored in clear, an altered one is the value the source itself answers with; a removed key file is a store without that key (covered by the intact sources); when the migration of a damaged source reports failure nothing more is demanded of the target (the statement leaves the state after a failed migration open); part B relies on MigrateV1toV2 reading each key file only at its export call (the enumeration lists names only)",
 		"acra-backup-cli: the binary is built by the check from the repository under test and run as a process; because a process costs ~0.6 CPU s on this VM only histories up to depth 1 (quick) / 2 (thorough) and 6 tamperings per tuple are run there",
 		"acra-keys export/import/migrate main() wiring (flag parsing) is not driven; their library calls (KeyBackuper.Export/Import, MigrateV1toV2) and the file layer of export (keys.WriteExportedData: every sequence of <= 2 (thorough 3) exports of 4 bundle sizes to the same paths from 3 initial states) are",
 		"access keys are excluded from the secret scan by definition; the scan looks for every private / symmetric key value ever generated in the source (also destroyed ones) raw, hex and base64 at every alignment")
